@@ -64,11 +64,21 @@ def dominates(idom, a, b):
         b = nb
 
 
-def post_dominators(body):
+def acyclic_succs(body):
+    """Successor lists with loop back edges (b -> h, h dominates b) removed: one iteration at a time."""
+    idom = dominators(body)
+    out = []
+    for b, ss in enumerate(body.succs()):
+        out.append([h for h in ss if not (b in idom and dominates(idom, h, b))])
+    return out
+
+
+def post_dominators(body, acyclic=False):
     """Immediate post-dominators over the non-unwind CFG with a virtual exit (-1) that every
-    return / diverging block flows to."""
+    return / diverging block flows to.  With acyclic=True back edges are cut first (a block whose
+    only successors were back edges flows to the virtual exit)."""
     n = len(body.blocks)
-    succ = body.succs()
+    succ = acyclic_succs(body) if acyclic else body.succs()
     exits = [i for i in range(n) if not succ[i] and not body.blocks[i]["cleanup"]]
     # reverse graph
     rsucc = {i: [] for i in range(n)}
@@ -121,12 +131,12 @@ def post_dominators(body):
     return ipdom
 
 
-def control_deps(body):
+def control_deps(body, acyclic=False):
     """Control dependence: dict block -> set of (switch_block, succ) edges it is control
     dependent on (Ferrante et al., via post-dominators)."""
-    ipdom = post_dominators(body)
+    ipdom = post_dominators(body, acyclic)
     cd = {i: set() for i in range(len(body.blocks))}
-    succ = body.succs()
+    succ = acyclic_succs(body) if acyclic else body.succs()
     for a in range(len(body.blocks)):
         if len(succ[a]) < 2:
             continue
@@ -146,8 +156,8 @@ def control_deps(body):
     return cd
 
 
-def transitive_control_deps(body):
-    cd = control_deps(body)
+def transitive_control_deps(body, acyclic=False):
+    cd = control_deps(body, acyclic)
     out = {}
     for b in cd:
         seen = set()
